@@ -594,7 +594,19 @@ def rule_flow_err(ctx):
         raise AnalysisGap("Parser::parse impl not found")
     pmm = hq.parent_map(pr[0]["body"])
     cs = [c for c in walk(pr[0]["body"]) if c.get("k") == "Call" and (callee_generic(c) or "").endswith("pest::Parser::parse")]
-    ctx.add("FLOW-ERR", "pest-error", len(cs) == 1 and hq.is_try_propagated(pmm, cs[0]), ctx.site(pr[0]), "a pest syntax error is returned as Err (propagated with `?`)")
+    ok_pe = len(cs) == 1 and hq.is_try_propagated(pmm, cs[0])
+    if len(cs) == 1 and not ok_pe:
+        # decided on the value: with the pest call answering Err(e) the function answers Err(..e..) - `?`, `map`, `and_then` or a match
+        from .. import comp as _comp, leaves as _lv
+        _comp.use(fx)
+        pv = sym.Eval(fx, inline_depth=0).function(pr[0])
+        pcs = sorted({x for x in sym.subterms(pv) if isinstance(x, tuple) and x[:1] == ("call",) and str(x[1]).endswith("Parser::parse")}, key=repr)
+        if len(pcs) == 1:
+            ERR = ("ctor", "Result::Err", (("0", ("param", "$e")),))
+            dv = _comp.decide_literals(_comp.case_of_case(_lv.replace(pv, {pcs[0]: ERR})))
+            dv = _comp.early_exit(dv) or dv
+            ok_pe = isinstance(dv, tuple) and dv[:2] == ("ctor", "Result::Err") and "$e" in repr(dv) and "panic" not in repr(dv)
+    ctx.add("FLOW-ERR", "pest-error", ok_pe, ctx.site(pr[0]), "a pest syntax error is returned as Err (propagated with `?`)")
     # main returns Result and the binary's main returns it
     bm = [b for b in fx.bin["bodies"] if b["name"] == "main"]
     reexport = "pub use command_line::procedures::main" in fx.read_source("src/lib.rs")
